@@ -931,6 +931,16 @@ func ruleCreatedFileSync(e *Engine, r *Report, minInst int, pkgs ...string) {
 			if isIfaceInvoke(c, "Write", "Sync", "Close", "Write") || isIfaceInvoke(c, "WriteAt", "Sync", "Close", "Write") {
 				writes = true
 			}
+			// the created handle handed to a copier / writer wrapper (io.Copy(out, in), bufio.NewWriter(out), ...)
+			if create != nil && !c.Common().IsInvoke() {
+				for _, a := range c.Common().Args {
+					if e.dependsOn(a, func(v ssa.Value) bool { return v == create.(ssa.Value) }, 0) {
+						if sc := c.Common().StaticCallee(); sc != nil && sc.Pkg != nil && sc.Pkg.Pkg.Path() == "io" && strings.HasPrefix(sc.Name(), "Copy") {
+							writes = true
+						}
+					}
+				}
+			}
 			if isIfaceInvoke(c, "Sync", "Sync", "Close", "Write") {
 				syncs = true
 			}
